@@ -153,6 +153,50 @@ def run(prog, rep):
     stream_window.check(prog, rep, 'R3.6', floor=9)
     keycmp.check(prog, rep)
 
+    # ---------------------------------------------------------------- R3.8 scopes with an item cursor consume what was left unread
+    rep.rule('R3.8', 'MsgPack read scopes with an item cursor (array: 1 value per item, object: key + value per item): the destructor runs a loop '
+                     'bounded by mIndex < mSize that skips exactly that many values per unread item and advances the cursor', floor=4)
+    per_item = {'CMsgPackReadArrayScope': 1, 'CMsgPackReadObjectScope': 2}
+    work = []
+    for short in sorted(per_item):
+        q = 'BitSerializer::MsgPack::Detail::' + short
+        rec = prog.records.get(q) or next((r for r in prog.records.values() if r['q'] == q), None)
+        if rec is None:
+            raise AnalysisBroken('anchor vanished: ' + q)
+        dts = [f for f in prog.funcs.values() if strip_targs(f.cls or '') == q and f.name.startswith('~') and '<' in (f.cls or '') and f.body is not None]
+        if not rec.get('userdtor') or not dts:
+            rep.finding('R3.8', '%s|no destructor' % short, '%s:%s' % (rec['_tu']['files'][rec['file']].replace('/repo/', ''), rec['line']),
+                        '%s has no destructor: items of a partly read %s stay in the input and are parsed as members of the parent scope'
+                        % (short, 'array' if per_item[short] == 1 else 'map'), count=2)
+            continue
+        for f in sorted(dts, key=lambda g: g.id):
+            work.append((short, f.cls.replace('BitSerializer::MsgPack::Detail::', ''), f))
+    for short, site, f in work:
+        rep.touch(f)
+        loops = [n for n in f.walk() if n['k'] in ('ForStmt', 'WhileStmt')]
+        good = None
+        for lp in loops:
+            cond = child(lp, 'cond') if lp['k'] == 'ForStmt' else lp['c'][0]
+            names = set(m.get('m') for m in f.walk(cond) if m['k'] == 'MemberExpr') if cond else set()
+            ops = [m.get('op') for m in f.walk(cond) if m['k'] == 'BinaryOperator'] if cond else []
+            if not ({'mSize'} <= names and ops and ops[0] in ('<', '!=')):
+                continue
+            skips = [m for m in f.walk(lp) if m['k'] == 'CXXMemberCallExpr' and (f.callee(m) or {}).get('n') == 'SkipValue']
+            incs = [m for m in f.walk(lp) if m['k'] == 'UnaryOperator' and m.get('op') == '++'
+                    and (strip(m['c'][0]) or {}).get('m') == 'mIndex']
+            good = (len(skips), len(incs), f.loc(lp))
+            break
+        if good is None:
+            rep.finding('R3.8', '%s|no skip loop' % short, f.loc(), '%s: destructor has no loop bounded by mSize that skips unread items' % site, func=f.id, count=2)
+        elif good[0] != per_item[short]:
+            rep.finding('R3.8', '%s|skip count' % short, good[2], '%s: destructor skips %d value(s) per unread item, the scope holds %d per item'
+                        % (site, good[0], per_item[short]), func=f.id, count=2)
+        elif good[1] != 1:
+            rep.finding('R3.8', '%s|cursor' % short, good[2], '%s: skip loop does not advance mIndex exactly once per item' % site, func=f.id, count=2)
+        else:
+            rep.ok('R3.8', site + '|skip loop', sample={'scope': site, 'loop': good[2], 'values_skipped_per_item': good[0]})
+            rep.ok('R3.8', site + '|cursor advance')
+
 
 WRAPPER_TYPES = (('std::byte', 'byte'), ('std::basic_string<', 'string'), ('EnumAsBin<', 'EnumAsBin'), ('std::atomic<', 'atomic'),
                  ('std::chrono::time_point<', 'time_point'), ('std::chrono::duration<', 'duration'), ('BitSerializer::CTimeRef', 'CTimeRef'),
